@@ -90,6 +90,11 @@ def oracle(case, io, mo):
             fails.append(("reply-depends-on-secret", "step %d: '%s' answered %s on one server and %s on the other" % (i, line, ra, rb)))
         if [x.replace("dA", "@") for x in ia] != [x.replace("dB", "@") for x in ib]:
             fails.append(("inbox-depends-on-secret", "step %d: '%s' delivered %s vs %s" % (i, line, ia, ib)))
+        for r_ in (ra, rb):
+            if r_.startswith("Value keys "):
+                listed = [x for x in unesc(r_.split(" ")[2]).split(",") if x.startswith("$$")]
+                if listed:
+                    fails.append(("secure-key-listed", "step %d: '%s' listed %s to a non-administrator" % (i, line, listed)))
         for txt in [ra] + ia + [rb] + ib:
             if any(s in txt for s in ("S1", "S2", "T1", "T2", "only-in-B", "q1", "q2")):
                 fails.append(("secret-leaked", "step %d: '%s' -> %s" % (i, line, txt[:120])))
